@@ -315,18 +315,22 @@ static z3::expr symUnary(int op, const z3::expr &x) {
 }
 double __sym_un_d(int op, double a) {
   if (!isboxd(a)) { switch (op) { case 0: return fabs(a); case 1: return sqrt(a); case 2: return log(a); case 3: return exp(a); case 4: return floor(a); default: return ceil(a); } }
+  { double v; if (op >= 1 && op <= 3) { z3::expr s = termd(a).simplify(); if (s.is_numeral()) { v = ratDouble(s); return op == 1 ? sqrt(v) : op == 2 ? log(v) : exp(v); } } }
   touch(); return box(symUnary(op, termd(a)));
 }
 float __sym_un_f(int op, float a) {
   if (!isboxf(a)) { switch (op) { case 0: return fabsf(a); case 1: return sqrtf(a); case 2: return logf(a); case 3: return expf(a); case 4: return floorf(a); default: return ceilf(a); } }
+  { double v; if (op >= 1 && op <= 3) { z3::expr s = termf(a).simplify(); if (s.is_numeral()) { v = ratDouble(s); return op == 1 ? sqrtf((float)v) : op == 2 ? logf((float)v) : expf((float)v); } } }
   touch(); return boxf(symUnary(op, termf(a)));
 }
 static z3::expr symPow(const z3::expr &x, const z3::expr &y) {
   z3::expr ys = y.simplify(); if (ys.is_numeral()) { double e = ratDouble(ys); if (e == floor(e) && fabs(e) <= 16) { z3::expr r = ctx.real_val(1); for (int i = 0; i < (int)fabs(e); i++) r = r * x; return e >= 0 ? r : ctx.real_val(1) / r; } }
   slusym_outside("pow with symbolic operand"); return x;
 }
-double __sym_pow_d(double a, double b) { if (!isboxd(a) && !isboxd(b)) return pow(a, b); touch(); return box(symPow(termd(a), termd(b))); }
-float __sym_pow_f(float a, float b) { if (!isboxf(a) && !isboxf(b)) return powf(a, b); touch(); return boxf(symPow(termf(a), termf(b))); }
+/* transcendental functions of exact-rational constants are evaluated natively (they are inexact in any case; only tuning constants reach them) */
+static bool numeralOf(const z3::expr &t, double *v) { z3::expr s = t.simplify(); if (!s.is_numeral()) return false; *v = ratDouble(s); return true; }
+double __sym_pow_d(double a, double b) { if (!isboxd(a) && !isboxd(b)) return pow(a, b); double x, y; if (numeralOf(termd(a), &x) && numeralOf(termd(b), &y)) return pow(x, y); touch(); return box(symPow(termd(a), termd(b))); }
+float __sym_pow_f(float a, float b) { if (!isboxf(a) && !isboxf(b)) return powf(a, b); double x, y; if (numeralOf(termf(a), &x) && numeralOf(termf(b), &y)) return powf((float)x, (float)y); touch(); return boxf(symPow(termf(a), termf(b))); }
 double __sym_fpext(float a) { if (!isboxf(a)) return (double)a; return boxid(bitsf(a) & PAYF); }
 float __sym_fptrunc(double a) { if (!isboxd(a)) return (float)a; return boxidf(bitsd(a) & PAY); }
 
